@@ -9,7 +9,7 @@
    and are therefore decided at the code level by the correspondence/oracle only. *)
 From PG Require Import Common.Tactics Model.Geno Model.Evo Model.EvoOps
   Proofs.GenoConcrete Proofs.EvoBase Proofs.EvoSel Proofs.EvoComp Proofs.EvoMut Proofs.EvoSwap Proofs.EvoSeg Proofs.EvoPw Proofs.EvoRec
-  Proofs.EvoPwTotal Proofs.EvoPermSmall Proofs.EvoExamples.
+  Proofs.EvoPwTotal Proofs.EvoPermSmall Proofs.EvoSelExpr Proofs.EvoExamples.
 
 (* the contract assumed of random.Random is satisfiable *)
 Theorem C14_rng_contract_inhabited : rng_ok first_rng.
@@ -26,6 +26,12 @@ Theorem C14_selector_count : forall R (G : rng R), rng_ok G -> forall sl pop r o
   weights_nonneg pop -> select R G sl pop r = Ok (out, r') -> length out = documented_count sl pop.
 Proof. exact select_count. Qed.
 Print Assumptions C14_selector_count.
+
+(* ... and so does every pipeline built from selectors with the composition operators (on a population of DNAs) *)
+Theorem C14_selector_expression_members : forall R (G : rng R) s x, sel_only x = true -> forall pop st out st',
+  flat pop -> eval R G s x pop st = Ok (out, st') -> incl out pop.
+Proof. exact sel_expr_members. Qed.
+Print Assumptions C14_selector_expression_members.
 
 (* ---- composition: ALL operator programs (induction on the expression) ------------------------------------ *)
 Theorem C14_composition_closed : forall R (G : rng R) s,
